@@ -171,7 +171,7 @@ def run(ck):
                           "exact_lattice_coords": [[str(x) for x in r] for r in e["info"]["exactL"]]}, key="c01-exact-%d" % c)
     ck.extra["exact_cases"] = len(codes)
     # ---------------- (b) float tier + (c) real GF -------------------------------------------------
-    names = gen.SMALL + (["fcc", "bcc", "hcp", "re3", "diamond"] if not ck.quick else ["fcc", "re3"])
+    names = gen.SMALL + ["ortho"] + (["fcc", "bcc", "hcp", "re3", "diamond"] if not ck.quick else ["fcc", "re3"])
     ncr = ck.n(9, 40)
     nfloat = 0; nreal = 0
     pool = list(gen.pool(rng, ncr, names=names, random_frac=0.35, nchem_max=2, maxatoms=2))
@@ -221,6 +221,32 @@ def run(ck):
                 # with the real Green function against the extrapolated chain itself in tier c)
                 if npolar == 0 and not errs[nm + "_polar"] <= 1e-8:
                     ck.violation("%s differs (%.3g) although the crystal has no site vector basis" % (nm, errs[nm + "_polar"]), rep_doc, key="c01-float-" + nm)
+        # (b') the same comparison with the large-omega2 algorithm forced (large_om2 = 0) and inequivalent exchange classes
+        # given different rates: for ordinary energies both algorithms must reproduce the exact chain
+        # (multi-Wyckoff crystals are the C08 known finding c08-largeom2-multiwyckoff and are not compared here)
+        if len(sl) == 1:
+            th = vm.random_thermo(d, rng, interact=True, site_energies=True)
+            th["preT2"] = th["preT2"] * np.array([10.0 ** rng.uniform(0, 1.5) for _ in th["preT2"]])
+            args = d.preene2betafree(1.0, **th)
+            orig = d.Lij
+            try:
+                d.Lij = lambda *a, **kw: orig(*a, large_om2=0.)
+                I, o, errs, npolar = compare_injected(ck, d, args, M, label, None)
+            except Exception as e:
+                errs = None
+                ck.violation("Lij(large_om2=0) raised %r" % e, {"crystal": repr(crys), "chem": chem, "cutoff": cut, "Nthermo": Nth}, key="c01-raise")
+            finally:
+                del d.Lij
+            if errs is not None:
+                nfloat += 1
+                ck.case(key=("float-large", label, round(cut, 5), Nth, [np.asarray(a).round(12).tolist() for a in args]), nontrivial=True,
+                        kind="float-forced-large:%dD-N%d-om2cls%d" % (crys.dim, d.N, len(d.om2_jn)))
+                for nm in ("Lss", "Lsv", "L1vv"):
+                    if not errs[nm] <= 1e-7:
+                        ck.violation("%s (injected, large-omega2 algorithm forced) differs from the exact torus chain by %.3g relative" % (nm, errs[nm]),
+                                     {"crystal": repr(crys), "chem": chem, "cutoff": cut, "Nthermo": Nth, "M": M,
+                                      "thermo": {k: np.asarray(v).tolist() for k, v in th.items()}, "Lij_injected": [x.tolist() for x in I],
+                                      "relative_errors": {k: float(v) for k, v in errs.items()}}, key="c01-float-large-" + nm)
         # (c) real Green function on a subset
         if (nreal < ck.n(3, 12)) and crys.dim * 1 >= 2 and nst <= 1400:
             nreal += 1
